@@ -178,10 +178,12 @@ for line in sys.stdin:
 class Interpreter:
     """One long-lived interpreter in which generator.__main__.main is called once per run."""
 
-    def __init__(self, hashseed, optimize=False):
+    def __init__(self, hashseed, optimize=False, ascii_locale=False):
         env = dict(os.environ, PYTHONPATH=common.REPO, PYTHONHASHSEED=hashseed)
         if optimize:
             env["PYTHONOPTIMIZE"] = "1"
+        if ascii_locale:
+            env.update(LC_ALL="C", LANG="C", PYTHONUTF8="0", PYTHONCOERCECLOCALE="0")
         self.p = subprocess.Popen([common.PY, "-c", INPROC], cwd=common.REPO, env=env, stdin=subprocess.PIPE, stdout=subprocess.PIPE,
                                   stderr=subprocess.DEVNULL, text=True)
 
@@ -219,9 +221,9 @@ def run_history(args):
         for a in hist:
             if a["a"] == "OneInterpreter":
                 first = next((x for x in hist if x["a"] == "Run"), None)
-                hs0 = first["seed"] if first and first["seed"] not in ("r", "O") else str(rnd.randint(2, 4000000))
-                # the hash seed and -O are properties of the process: the first run's
-                interp = Interpreter(hs0, optimize=bool(first and first["seed"] == "O"))
+                hs0 = first["seed"] if first and first["seed"] not in ("r", "O", "L") else str(rnd.randint(2, 4000000))
+                # the hash seed, -O and the locale are properties of the process: the first run's
+                interp = Interpreter(hs0, optimize=bool(first and first["seed"] == "O"), ascii_locale=bool(first and first["seed"] == "L"))
                 events.append({"e": "OneInterpreter", "plugin": plugin})
                 continue
             if a["a"] == "Stale":
@@ -241,7 +243,7 @@ def run_history(args):
                 continue
             model = models[a["model"] if a["valid"] else "bad"]
             mlist = model if isinstance(model, list) else [model]
-            hs = a["seed"] if a["seed"] not in ("r", "O") else str(rnd.randint(2, 4000000))
+            hs = a["seed"] if a["seed"] not in ("r", "O", "L") else str(rnd.randint(2, 4000000))
             # "nothing written" only matters for runs that must be refused
             before = other_digest(plugin, out, test) if not a["valid"] else ""
             argv = ["--model"] + mlist + ["--plugin", plugin, "--output-dir", out, "--test-dir", test]
@@ -251,6 +253,8 @@ def run_history(args):
                 env = dict(os.environ, PYTHONPATH=common.REPO, PYTHONHASHSEED=hs)
                 if a["seed"] == "O":
                     env["PYTHONOPTIMIZE"] = "1"       # another process: python -O (and a random hash seed)
+                if a["seed"] == "L":                  # another process: the locale encoding is ASCII, no UTF-8 mode
+                    env.update(LC_ALL="C", LANG="C", PYTHONUTF8="0", PYTHONCOERCECLOCALE="0")
                 p = subprocess.run([common.PY, "-m", "generator"] + argv,
                                    cwd=common.REPO, env=env, stdout=subprocess.DEVNULL, stderr=subprocess.DEVNULL, timeout=1800)
                 rcode = p.returncode
@@ -314,6 +318,11 @@ def check_c16(tier):
             if (len(a) == 3 and a[0]["a"] == "OneInterpreter" and a[1]["a"] == "Run" and a[2]["a"] == "Run" and a[1]["valid"] and a[2]["valid"]
                     and a[1]["model"] != a[2]["model"] and a[1]["seed"] == "0" and a[2]["seed"] == "0"):
                 must.append(h)
+        # the same model by a plain process and by one with an ASCII locale / python -O
+        for plugin in ("python", "rust", "dotnet", "testdata"):
+            for other in ("L", "O"):
+                must.append({"plugin": plugin, "hist": [{"a": "Run", "model": "A", "seed": "0", "valid": True},
+                                                        {"a": "Run", "model": "A", "seed": other, "valid": True}]})
         # a list of two model files under different hash seeds (the merge order must be the command-line order)
         for plugin in ("python", "rust", "dotnet"):
             for seeds in (("0", "1"), ("1", "r"), ("r", "r")):
